@@ -713,6 +713,8 @@ class World:
         node_sort = getattr(self, 'tree', None).NS if getattr(self, 'tree', None) is not None else None
         seqnode_sort = self.tree.SEQ_NODE.sort() if node_sort is not None else None
         apps, nodes, nths = {}, {}, {}
+        watched = {}
+        watch = getattr(self, 'watch_decls', ())
         visited = set()
         stack = [f]
         while stack:
@@ -725,6 +727,8 @@ class World:
                 d = t.decl()
                 if d.name() in names:
                     apps[tid] = t
+                if d.name() in watch:
+                    watched[tid] = t
                 if node_sort is not None:
                     if t.sort().eq(node_sort):
                         nodes[tid] = t
@@ -733,7 +737,7 @@ class World:
                 stack.extend(t.children())
             elif z3.is_quantifier(t):
                 stack.append(t.body())
-        res = (apps, nodes, nths)
+        res = (apps, nodes, nths, watched)
         cache[fid] = (f, res)
         return res
 
@@ -844,10 +848,12 @@ class World:
         pre.old_heap = dict(st.heap)
         for r in c.requires:
             eng.oblige(st, 'call-pre', eng.spec_bool(r, pre), f'precondition of {qual.split(".")[-1]}: {r}')
+        havocked = []
         for m in c.modifies:
             on, f = m.split('.')
             actual = bound[on]
             key = (actual.name, f)
+            havocked.append((key, st.heap[key]))
             st.heap[key] = fresh(st.heap[key].t, f'{actual.name}.{f}')
         post = st.copy()
         post.env = dict(bound)
@@ -878,6 +884,11 @@ class World:
                 else:
                     st.pc.append(z3.Implies(r, cv))
             eng.may_raise(st, exc, r, f'call to {qual.split(".")[-1]}')
+        if gs:
+            # a call inside a short-circuit / conditional expression happens only under its guards: otherwise the field is unchanged
+            for key, before in havocked:
+                after = st.heap[key]
+                st.heap[key] = V(after.t, z3.If(z3.And(*gs), after.term, before.term))
         return res
 
     def comprehension(self, eng, e, st):
